@@ -122,3 +122,185 @@ Example C02_example :
             [[VInt 1; VInt 10]; [VNull; VInt 1]; [VInt 2; VInt 5]; [VDec (mkdec false 10 (-1)); VNull]; [VNull; VInt 2]]
   = [[VInt 1; VInt 2; VInt 10; VBool true]; [VNull; VInt 2; VInt 3; VBool true]].
 Proof. reflexivity. Qed.
+
+(* ------------------------------------------------------------------ tie by translation (group `agg`)
+   Gen/SrcAgg.v is regenerated on every run from the SOURCE of query_execute.Allocator, of the aggregator classes of
+   query_env.py (allocate / initialize / update / finalize, resolved through the MRO of the live classes) and of the
+   aggregated branch of query_execute.execute_select (harness/vf/src_agg.py: selection by structure, desugaring rules
+   A1-A9); the theorems below are about those generated terms.  Objects and library calls are given meaning in
+   Model/PrimsAgg.v; compiled expressions (operands, WHERE, grouping targets) are opaque callables whose value is not
+   an exception, as in C01_source_*. *)
+From Coq Require Import String.
+From Verif Require Import Model.PyMini Model.PrimsAgg Gen.SrcAgg Proofs.PyMiniLemmas Proofs.SrcAgg.
+Open Scope string_scope.
+Import ListNotations.
+
+Definition c02_p1 call_ref := prims1 call_ref alloc_init alloc_allocate alloc_create_store.
+Definition c02_p2 call_ref := prims2 call_ref alloc_init alloc_allocate alloc_create_store classes.
+
+(* the class table the other theorems index into is the one generated from query_compile.FUNCTIONS *)
+Theorem C02_source_classes :
+  map (fun x => fst (fst (fst x))) agg_classes =
+  ["beanquery.query_env.Count"; "beanquery.query_env.CountArg"; "beanquery.query_env.SumInt";
+   "beanquery.query_env.SumDecimal"; "beanquery.query_env.First"; "beanquery.query_env.Last";
+   "beanquery.query_env.Min"; "beanquery.query_env.Max"].
+Proof. exact agg_class_names. Qed.
+Print Assumptions C02_source_classes.
+
+(* Allocator: handles are 0, 1, 2, ..; a new store has one None slot per allocated handle *)
+Theorem C02_source_allocator : forall call_ref (k : Z) (m : nat),
+  c02_p2 call_ref "new:beanquery.query_execute.Allocator" [] = Ok (alloc_pv (PInt 0)) /\
+  c02_p2 call_ref "method:allocate" [alloc_pv (PInt k)] = Ok (PTuple [alloc_pv (PInt (k + 1)); PInt k]) /\
+  c02_p2 call_ref "call:create_store" [alloc_pv (PInt (Z.of_nat m))] = Ok (PList (map PV (repeat VNull m))).
+Proof.
+  intros call_ref k m. exact (conj (new_allocator call_ref) (conj (alloc_allocate_src call_ref k) (alloc_create_store_src call_ref m))).
+Qed.
+Print Assumptions C02_source_allocator.
+
+(* (1) initialize: EvalAggregator.initialize (count, sum) stores self.dtype() in the node's slot and clears the parked
+   value; First/Last/Min/Max.initialize store None *)
+Theorem C02_source_initialize_default : forall call_ref (i kd : nat) (o v : pv) (slots : list value) (z : value),
+  (i < List.length slots)%nat -> call_ref kd [] = PV z -> is_err z = false ->
+  call_method call_ref (c02_p1 call_ref) aggm_EvalAggregator_initialize (aflds i kd o v) [PList (map PV slots)] =
+  Ok (aflds i kd o PNone, PList (map PV (set_nth i z slots))).
+Proof. exact initialize_default_src. Qed.
+Print Assumptions C02_source_initialize_default.
+
+Theorem C02_source_initialize_none : forall call_ref (f : fdef) (i kd : nat) (o v : pv) (slots : list value),
+  f = aggm_First_initialize \/ f = aggm_Last_initialize \/ f = aggm_Min_initialize \/ f = aggm_Max_initialize ->
+  (i < List.length slots)%nat ->
+  call_method call_ref (c02_p1 call_ref) f (aflds i kd o v) [PList (map PV slots)] =
+  Ok (aflds i kd o v, PList (map PV (set_nth i VNull slots))).
+Proof. exact initialize_none_src. Qed.
+Print Assumptions C02_source_initialize_none.
+
+(* (1) update: the translated update method of each class replaces the node's slot by Exec.agg_update *)
+Theorem C02_source_update_count : forall call_ref ctx_of (i kd : nat) (o v : pv) (slots : list value) (r : row) (e : enode),
+  (i < List.length slots)%nat ->
+  call_method call_ref (c02_p1 call_ref) aggm_Count_update (aflds i kd o v) [PList (map PV slots); ctx_of r] =
+  upd_result i kd o v slots (agg_update {| afun := ACountStar; aarg := e |} r (nth i slots VNull)).
+Proof. exact update_count_src. Qed.
+Print Assumptions C02_source_update_count.
+
+Theorem C02_source_update_countarg : forall call_ref ctx_of (i kd : nat) (o v : pv) (slots : list value) (r : row) (e : enode),
+  (i < List.length slots)%nat -> operand_on call_ref ctx_of r o e ->
+  call_method call_ref (c02_p1 call_ref) aggm_CountArg_update (aflds i kd o v) [PList (map PV slots); ctx_of r] =
+  upd_result i kd o v slots (agg_update {| afun := ACount; aarg := e |} r (nth i slots VNull)).
+Proof. exact update_countarg_src. Qed.
+Print Assumptions C02_source_update_countarg.
+
+Theorem C02_source_update_sum : forall call_ref ctx_of (f : fdef) (i kd : nat) (o v : pv) (slots : list value) (r : row)
+    (e : enode) (z : value),
+  f = aggm_SumInt_update \/ f = aggm_SumDecimal_update ->
+  (i < List.length slots)%nat -> operand_on call_ref ctx_of r o e ->
+  call_method call_ref (c02_p1 call_ref) f (aflds i kd o v) [PList (map PV slots); ctx_of r] =
+  upd_result i kd o v slots (agg_update {| afun := ASum z; aarg := e |} r (nth i slots VNull)).
+Proof. exact update_sum_src. Qed.
+Print Assumptions C02_source_update_sum.
+
+Theorem C02_source_update_first : forall call_ref ctx_of (i kd : nat) (o v : pv) (slots : list value) (r : row) (e : enode),
+  (i < List.length slots)%nat -> operand_on call_ref ctx_of r o e ->
+  call_method call_ref (c02_p1 call_ref) aggm_First_update (aflds i kd o v) [PList (map PV slots); ctx_of r] =
+  upd_result i kd o v slots (agg_update {| afun := AFirst; aarg := e |} r (nth i slots VNull)).
+Proof. exact update_first_src. Qed.
+Print Assumptions C02_source_update_first.
+
+Theorem C02_source_update_last : forall call_ref ctx_of (i kd : nat) (o v : pv) (slots : list value) (r : row) (e : enode),
+  (i < List.length slots)%nat -> operand_on call_ref ctx_of r o e ->
+  call_method call_ref (c02_p1 call_ref) aggm_Last_update (aflds i kd o v) [PList (map PV slots); ctx_of r] =
+  upd_result i kd o v slots (agg_update {| afun := ALast; aarg := e |} r (nth i slots VNull)).
+Proof. exact update_last_src. Qed.
+Print Assumptions C02_source_update_last.
+
+Theorem C02_source_update_min : forall call_ref ctx_of (i kd : nat) (o v : pv) (slots : list value) (r : row) (e : enode),
+  (i < List.length slots)%nat -> operand_on call_ref ctx_of r o e ->
+  comparable (Eval.eval r [] e) (nth i slots VNull) ->
+  call_method call_ref (c02_p1 call_ref) aggm_Min_update (aflds i kd o v) [PList (map PV slots); ctx_of r] =
+  upd_result i kd o v slots (agg_update {| afun := AMin; aarg := e |} r (nth i slots VNull)).
+Proof. exact update_min_src. Qed.
+Print Assumptions C02_source_update_min.
+
+Theorem C02_source_update_max : forall call_ref ctx_of (i kd : nat) (o v : pv) (slots : list value) (r : row) (e : enode),
+  (i < List.length slots)%nat -> operand_on call_ref ctx_of r o e ->
+  comparable (Eval.eval r [] e) (nth i slots VNull) ->
+  call_method call_ref (c02_p1 call_ref) aggm_Max_update (aflds i kd o v) [PList (map PV slots); ctx_of r] =
+  upd_result i kd o v slots (agg_update {| afun := AMax; aarg := e |} r (nth i slots VNull)).
+Proof. exact update_max_src. Qed.
+Print Assumptions C02_source_update_max.
+
+(* (1) finalize parks store[handle] on the node; __call__ returns what is parked (Eval's EAgg h = nth h slots) *)
+Theorem C02_source_finalize_call : forall call_ref (i kd : nat) (o v ctx : pv) (slots : list value),
+  (i < List.length slots)%nat ->
+  call_method call_ref (c02_p1 call_ref) aggm_EvalAggregator_finalize (aflds i kd o v) [PList (map PV slots)] =
+    Ok (aflds i kd o (PV (nth i slots VNull)), PList (map PV slots)) /\
+  call_method call_ref (c02_p1 call_ref) aggm_EvalAggregator_call (aflds i kd o (PV (nth i slots VNull))) [ctx] =
+    Ok (aflds i kd o (PV (nth i slots VNull)), PV (Eval.eval [] slots (EAgg i))).
+Proof. exact finalize_call_src. Qed.
+Print Assumptions C02_source_finalize_call.
+
+(* (3) the scan loop of the aggregated branch (`context = None; aggregates = defaultdict(create);
+   for context in query.table: if c_where ..: key = ..; store = aggregates[key]; update every aggregate`), run with the
+   TRANSLATED protocol methods of the generated class table, builds exactly Exec.scan_agg - the insertion-ordered
+   store C02_store_is_partition_fold is about - and leaves the last scanned row in `context`.
+   ds describes the aggregate node objects (class index, dtype, operands; handle = position, as allocate assigns it). *)
+Theorem C02_source_scan_loop : forall call_ref ctx_of (q : query) (table : list row) (g : list nat)
+    (ds : list (nat * nat * pv)) (cw qobj : pv) (gks : list nat) (vals : list pv),
+  Forall2 (node_ok call_ref ctx_of table) (q_aggs q) ds -> homogeneous q table ->
+  qobj <> PSelf -> c02_p2 call_ref "attr:table" [qobj] = Ok (PList (map ctx_of table)) ->
+  where_ok call_ref ctx_of q table (mk_nodes_from 0 ds) cw ->
+  keys_ok call_ref ctx_of q g table (mk_nodes_from 0 ds) gks ->
+  List.length vals = List.length (q_aggs q) ->
+  exists s' vals',
+    exec_block call_ref (c02_p2 call_ref)
+      {| locals := [("query", qobj); ("c_where", cw); ("c_nonaggregate_exprs", PList (map PRef gks));
+                    ("allocator", alloc_pv (PInt (Z.of_nat (List.length (q_aggs q)))));
+                    ("c_aggregate_exprs", PList (mk_nodes_from 0 ds vals))]; fields := [] |}
+      (f_body agg_scan) = Ok (Next s') /\
+    lookup "aggregates" (locals s') = Some (dict_pv (scan_agg q g [] table)) /\
+    lookup "context" (locals s') = Some (last (map ctx_of table) PNone) /\
+    List.length vals' = List.length (q_aggs q) /\
+    lookup "c_aggregate_exprs" (locals s') = Some (PList (mk_nodes_from 0 ds vals')).
+Proof. exact agg_scan_linked. Qed.
+Print Assumptions C02_source_scan_loop.
+
+(* non-vacuity: SELECT a, count( * ), sum(b) GROUP BY a over three rows; the opaque callables are two column
+   accessors and int(); the hypotheses of C02_source_scan_loop hold and the translated scan part RUNS to the model's store *)
+Definition c02_demo_ref : nat -> list pv -> pv :=
+  fun k args =>
+    match k, args with
+    | 10%nat, PTuple l :: _ => nth 0 l PNone
+    | 11%nat, PTuple l :: _ => nth 1 l PNone
+    | 20%nat, [] => PInt 0
+    | _, _ => PNone
+    end.
+Definition c02_demo_q : query :=
+  {| q_where := None; q_targets := [ECol 0; EAgg 0; EAgg 1]; q_group := Some [0%nat];
+     q_aggs := [{| afun := ACountStar; aarg := EConst VNull |}; {| afun := ASum (VInt 0); aarg := ECol 1 |}];
+     q_having := None; q_order := None; q_vis := [0%nat; 1%nat; 2%nat]; q_distinct := false; q_limit := None |}.
+Definition c02_demo_table : list row := [[VInt 1; VInt 10]; [VNull; VInt 1]; [VInt 1; VInt 5]].
+Definition c02_demo_ds : list (nat * nat * pv) := [(0%nat, 20%nat, PList []); (2%nat, 20%nat, PList [PRef 11])].
+
+Example C02_source_example_hyps :
+  Forall2 (node_ok c02_demo_ref key_pv c02_demo_table) (q_aggs c02_demo_q) c02_demo_ds /\
+  homogeneous c02_demo_q c02_demo_table /\
+  where_ok c02_demo_ref key_pv c02_demo_q c02_demo_table (mk_nodes_from 0 c02_demo_ds) PNone /\
+  keys_ok c02_demo_ref key_pv c02_demo_q [0%nat] c02_demo_table (mk_nodes_from 0 c02_demo_ds) [10%nat].
+Proof.
+  split; [|split; [|split]].
+  - repeat constructor; cbn; try tauto; try discriminate.
+    intros _ r [<-|[<-|[<-|[]]]]; exists 11%nat; repeat split.
+  - intros a [<-|[<-|[]]]; discriminate.
+  - reflexivity.
+  - intros r [<-|[<-|[<-|[]]]]; repeat constructor.
+Qed.
+
+Example C02_source_example_run :
+  match exec_block c02_demo_ref (c02_p2 c02_demo_ref)
+          {| locals := [("query", aquery_obj (PList (map key_pv c02_demo_table)) PNone); ("c_where", PNone);
+                        ("c_nonaggregate_exprs", PList [PRef 10]); ("allocator", alloc_pv (PInt 2));
+                        ("c_aggregate_exprs", PList (mk_nodes_from 0 c02_demo_ds [PNone; PNone]))]; fields := [] |}
+          (f_body agg_scan) with
+  | Ok (Next s') => lookup "aggregates" (locals s')
+  | _ => None
+  end = Some (dict_pv [([VInt 1], [VInt 2; VInt 15]); ([VNull], [VInt 1; VInt 1])]).
+Proof. vm_compute. reflexivity. Qed.
